@@ -10,7 +10,7 @@ import (
 	"verif/pager"
 )
 
-var c03Shapes = []string{"simple", "repeat", "rollback-overwrite", "grow", "shrink", "shrink-block", "spill-beyond", "ckpt-passive", "ckpt-full", "ckpt-restart", "ckpt-truncate", "litefs-ckpt", "lockonly", "mixed"}
+var c03Shapes = []string{"simple", "repeat", "rollback-overwrite", "grow", "shrink", "shrink-block", "shrink-tail", "spill-beyond", "ckpt-passive", "ckpt-full", "ckpt-restart", "ckpt-truncate", "litefs-ckpt", "lockonly", "mixed"}
 
 func init() {
 	register(&core.Check{
@@ -24,14 +24,14 @@ func init() {
 			if tier == "thorough" {
 				return 7000
 			}
-			return 420
+			return 450
 		},
 		EvalCounter: "programs",
 		Run:         runC03,
 		Floors: func(tier string) map[string]int {
 			return map[string]int{
 				"commit_le": 20, "commit_be": 20, "rollback_then_overwrite": 5, "wal_restart": 5,
-				"shrink_across_block": 3, "spilled_beyond_commit": 3,
+				"shrink_across_block": 3, "shrink_within_cached_tail_block": 10, "spilled_beyond_commit": 3,
 				"ckpt_passive": 2, "ckpt_full": 2, "ckpt_restart": 2, "ckpt_truncate": 2, "litefs_ckpt": 2,
 				"ltx_decoded": 100, "no_advance_checked": 20,
 			}
@@ -62,7 +62,7 @@ func runC03(c *core.Case) {
 	shape := c03Shapes[c.Index%len(c03Shapes)]
 	pageSizes := []uint32{512, 1024, 4096, 512, 4096, 8192, 2048, 1024, 65536}
 	ps := pageSizes[(c.Index/len(c03Shapes))%len(pageSizes)]
-	if shape == "shrink-block" && ps > 4096 {
+	if (shape == "shrink-block" || shape == "shrink-tail") && ps > 4096 {
 		ps = 512
 	}
 	bigEndian := (c.Index/len(c03Shapes))%2 == 1
@@ -82,6 +82,10 @@ func runC03(c *core.Case) {
 	first := uint32(3 + c.Rng.IntN(10))
 	if shape == "shrink-block" {
 		first = pick(c, []uint32{300, 257, 520})
+	}
+	if shape == "shrink-tail" {
+		// big database whose tail checksum block is fully checkpointed
+		first = pick(c, []uint32{300, 514, 600, 258, 513})
 	}
 	conn, err := walSetup(c, n, d, 1, first)
 	if err != nil {
@@ -106,8 +110,16 @@ func runC03(c *core.Case) {
 	for i := 0; i < steps; i++ {
 		cur := d.M.PageN
 		sh := shape
-		if shape == "mixed" || (i%2 == 1 && shape != "shrink-block" && shape != "spill-beyond") {
+		if shape == "mixed" || (i%2 == 1 && shape != "shrink-block" && shape != "spill-beyond" && shape != "shrink-tail") {
 			sh = c03Shapes[c.Rng.IntN(len(c03Shapes)-1)]
+		}
+		if shape == "shrink-tail" {
+			// cycle: touch page 1, checkpoint (log restarts on the next write),
+			// touch page 1 again (caches the tail block), shrink the tail by 1..3
+			sh = []string{"simple", "ckpt-full", "simple", "shrink-tail"}[i%4]
+			if i%8 == 1 {
+				sh = "ckpt-truncate"
+			}
 		}
 		prev := mon.PosOf(n, "db")
 		oldImg := d.M
@@ -175,7 +187,9 @@ func runC03(c *core.Case) {
 		}
 		switch sh {
 		case "simple", "shrink-block", "spill-beyond":
-			addFrames(1+c.Rng.IntN(4), cur)
+			if shape != "shrink-tail" {
+				addFrames(1+c.Rng.IntN(4), cur)
+			}
 		case "repeat":
 			addFrames(2+c.Rng.IntN(4), cur)
 			spec.Frames = append(spec.Frames, spec.Frames...)
@@ -196,6 +210,10 @@ func runC03(c *core.Case) {
 				spec.NewPageN = cur - uint32(1+c.Rng.IntN(int(cur-2)))
 			}
 			addFrames(1+c.Rng.IntN(3), spec.NewPageN)
+		case "shrink-tail":
+			if cur > 4 {
+				spec.NewPageN = cur - uint32(1+c.Rng.IntN(3))
+			}
 		case "lockonly":
 			spec.Outcome = "lockonly"
 		default:
@@ -294,6 +312,9 @@ func runC03(c *core.Case) {
 			}
 			if (cur > 256) != (spec.NewPageN > 256) && spec.NewPageN < cur {
 				c.Count("shrink_across_block", 1)
+			}
+			if sh == "shrink-tail" && spec.NewPageN < cur {
+				c.Count("shrink_within_cached_tail_block", 1)
 			}
 			for _, f := range spec.Frames {
 				if f.Pgno > spec.NewPageN {
